@@ -45,6 +45,17 @@ def domain(tier):
     return d
 
 
+def string_slot_domain():
+    """A second, small domain around the string-slot pattern (a dynamic array / `bytes` meeting the packed encoding
+    {flag bit (0,1), short length (1,7), data (8,248)}), with the spans of the packed encodings listed in ascending, in
+    descending and in mixed order: the order in which spans happen to be listed is not evidence."""
+    d = ["bytes", ["dyn", 0], ["word", 256, "bytes"], ["word", 8, "unsigned"]]
+    spans = {"f": [1, 0, 1], "l": [2, 1, 7], "d": [3, 8, 248]}
+    for names in ("f", "l", "d", "fl", "lf", "fd", "df", "ld", "dl", "fld", "dlf", "lfd", "dfl"):
+        d.append(["packed", False] + [spans[c] for c in names])
+    return d
+
+
 def key(e):
     return json.dumps(e)
 
@@ -216,6 +227,23 @@ def unify_level(res, dom, known_triples, tier, seed):
 def run(tier, seed, t0):
     res = common.Result()
     dom = domain(tier)
+    known_triples = {}
+    if os.path.exists(DATA):
+        known_triples = json.load(open(DATA))
+    dump = {}
+    algebra(res, dom, known_triples, dump)
+    dom2 = string_slot_domain()
+    algebra(res, dom2, known_triples, dump)
+    res.counters["string_slot_domain_size"] = len(dom2)
+    unify_level(res, dom, known_triples, tier, seed)
+    res.counters["domain_size"] = len(dom)
+    if os.environ.get("C16_DUMP"):
+        json.dump(dump, open(os.environ["C16_DUMP"], "w"), indent=0, sort_keys=True)
+    return finish_c16(tier, seed, res, dom, t0)
+
+
+def algebra(res, dom, known_triples, dump):
+    """Symmetry over all ordered pairs and associativity over all ordered triples of `dom`, through the real merge."""
     d = common.Driver("rel", shim=False)
     pairs = list(itertools.product(dom, dom))
     m1 = merge_all(d, pairs)
@@ -232,9 +260,6 @@ def run(tier, seed, t0):
     m2 = merge_all(d, missing)
     d.stop()
     m1.update(m2)
-    known_triples = {}
-    if os.path.exists(DATA):
-        known_triples = json.load(open(DATA))
 
     def outcome(x, y):
         return m1[(key(x), key(y))]
@@ -278,6 +303,7 @@ def run(tier, seed, t0):
             res.nontriv("t:" + key(a) + key(b) + key(c))
         if left != right:
             tk = key([a, b, c])
+            dump[tk] = [left, right]
             cls = "+".join(sorted([shape(a), shape(b), shape(c)]))
             listed = known_triples.get(tk)
             if listed is not None and listed == [left, right]:
@@ -287,31 +313,19 @@ def run(tier, seed, t0):
                 tag = "changed" if listed is not None else "unlisted"
                 res.violation("merge:nonassoc-%s:%s" % (tag, cls), "(a+b)+c=%s but a+(b+c)=%s" % (left, right),
                               {"a": a, "b": b, "c": c, "left": left, "right": right})
-    unify_level(res, dom, known_triples, tier, seed)
-    res.sample({"pair": [dom[2], dom[30]], "merge": outcome(dom[2], dom[30])})
-    res.sample({"triple": [dom[-3], dom[3], dom[9]]})
-    res.counters["domain_size"] = len(dom)
-    if os.environ.get("C16_DUMP"):
-        dump = {}
-        for v in res.violations:
-            pass
-        # regenerate the full list of failing triples
-        for a, b, c in itertools.product(dom, dom, dom):
-            ab, bc = outcome(a, b), outcome(b, c)
-            if "panic" in ab or "panic" in bc:
-                continue
-            l2, r2 = outcome(ab["expr"], c), outcome(a, bc["expr"])
-            if "panic" in l2 or "panic" in r2:
-                continue
-            left, right = normalise(l2["expr"], [ab, l2]), normalise(r2["expr"], [bc, r2])
-            if left != right:
-                dump[key([a, b, c])] = [left, right]
-        json.dump(dump, open(os.environ["C16_DUMP"], "w"), indent=0, sort_keys=True)
+    if len(dom) > 30:
+        res.sample({"pair": [dom[2], dom[30]], "merge": outcome(dom[2], dom[30])})
+        res.sample({"triple": [dom[-3], dom[3], dom[9]]})
+
+
+def finish_c16(tier, seed, res, dom, t0):
     return common.finish(
         PROP, tier, seed, res, "exploration",
         "exhaustive over a %d-element evidence domain (Any, dynamic bytes, words of every usage x widths "
         "{unknown,8,32,160,192,256}, two mappings, two dynamic arrays, four fixed arrays, a conflict%s): all %d ordered "
-        "pairs (symmetry) and all %d ordered triples (associativity); the same law one level up: all unordered pairs and "
+        "pairs (symmetry) and all %d ordered triples (associativity); the same two laws exhaustively over a second 17-element "
+        "domain around the string-slot pattern (bytes, a dynamic array, words, and packed encodings of the flag / length / data "
+        "spans listed in ascending, descending and mixed order); the same law one level up: all unordered pairs and "
         "sampled triples (excluding the recorded non-associative ones) as judgements about one variable, unified by the real "
         "`unify` with its fold order forced to sorted / reversed / 4 shuffles. distinct = distinct ordered pair/triple; "
         "non-trivial = pairwise different elements and no Any" % (
